@@ -34,6 +34,7 @@ TFWait   == IsEvent("waitpid_other") /\ ForeignWait /\ UNCHANGED scn
 TSleep   == IsEvent("sleep") /\ Sleep(T(Ev.d), T(Ev.now)) /\ UNCHANGED scn
 TBkRun   == IsEvent("bk_run") /\ BkRun(Ev.n, T(Ev.d), T(Ev.now)) /\ UNCHANGED scn
 TRunaway == IsEvent("runaway") /\ Runaway /\ UNCHANGED scn
+TStuck   == IsEvent("stuck") /\ Stuck /\ UNCHANGED scn
 TEnd ==
   /\ IsEvent("end")
   /\ PrintT(<<"RESULT", scn, viol, {}, Ev.st>>)
@@ -41,7 +42,7 @@ TEnd ==
 
 TraceNext ==
   \/ TReset \/ TExit \/ TXreap \/ TReuse \/ TDelay \/ TApi \/ TApiRet \/ TWaitpid \/ TWEintr \/ TWNoThr \/ TWBlock \/ THang
-  \/ TKill \/ TFKill \/ TFWait \/ TSleep \/ TBkRun \/ TRunaway \/ TEnd
+  \/ TKill \/ TFKill \/ TFWait \/ TSleep \/ TBkRun \/ TRunaway \/ TStuck \/ TEnd
 
 TraceSpec == TraceInit /\ [][TraceNext]_tvars
 
